@@ -545,6 +545,26 @@ static void do_rec_glv(const char *op) {
 }
 #endif
 
+/* bn_rec_frb <al> k x n sub cof : decomposition of k in the Frobenius basis (cof = 0: signed base-x digits;
+ * cof = 1: the Barreto-Naehrig lattice, n = n(x), eigenvalue 6x^2) */
+static void do_rec_frb(const char *op) {
+	int err = 0, i, sub = atoi(vh_tok[5]), cof = atoi(vh_tok[6]);
+	bn_t ki[4];
+	if (sub < 1 || sub > 4) { fprintf(stderr, "bad sub\n"); exit(2); }
+	for (i = 0; i < 4; i++) { bn_null(ki[i]); bn_new(ki[i]); bn_set_dig(ki[i], 0x5a + i); }
+	vh_bn_set(A, vh_tok[2]); vh_bn_set(B, vh_tok[3]); vh_bn_set(M, vh_tok[4]);
+	bn_copy(A0, A); bn_copy(B0, B);
+	hdr(op, 0);
+	vh_int("sub", sub); vh_int("cof", cof);
+	vh_bn("k", A); vh_bn("x", B); vh_bn("n", M);
+	VH_TRY(err, bn_rec_frb(ki, sub, A, B, M, cof));
+	fputs(",\"ki\":[", vh_out);
+	for (i = 0; i < sub; i++) { if (i) fputc(',', vh_out); vh_bn_raw(ki[i]); }
+	fputc(']', vh_out);
+	fin(err, vh_bn_same(A, A0) && vh_bn_same(B, B0));
+	for (i = 0; i < 4; i++) bn_free(ki[i]);
+}
+
 static int run_case(void) {
 	const char *op = vh_tok[0];
 	int al = vh_ntok > 1 ? atoi(vh_tok[1]) : 0;
@@ -596,6 +616,7 @@ static int run_case(void) {
 #if defined(WITH_EP)
 	else if (OP("bn_rec_glv")) do_rec_glv(op);
 #endif
+	else if (OP("bn_rec_frb")) do_rec_frb(op);
 	else return 0;
 	return 1;
 }
